@@ -59,9 +59,13 @@ def derived_schema(ver):
  <xs:simpleType name="ilist"><xs:list itemType="small"/></xs:simpleType>
  <xs:simpleType name="ilist2"><xs:restriction base="ilist"><xs:length value="2"/></xs:restriction></xs:simpleType>
  <xs:simpleType name="u"><xs:union memberTypes="small xs:boolean word"/></xs:simpleType>
+ <xs:simpleType name="us"><xs:union memberTypes="xs:int xs:string"/></xs:simpleType>
+ <xs:simpleType name="twoWords"><xs:restriction base="us"><xs:pattern value="[a-z]+ [a-z]+|[0-9]+"/></xs:restriction></xs:simpleType>
+ <xs:simpleType name="lead"><xs:restriction base="us"><xs:pattern value="  [a-z]+|[0-9]+"/></xs:restriction></xs:simpleType>
  <xs:simpleType name="money"><xs:restriction base="xs:decimal"><xs:totalDigits value="4"/><xs:fractionDigits value="2"/></xs:restriction></xs:simpleType>
  <xs:element name="small" type="small"/><xs:element name="smaller" type="smaller"/><xs:element name="word" type="word"/><xs:element name="en" type="en"/>
- <xs:element name="ilist" type="ilist"/><xs:element name="ilist2" type="ilist2"/><xs:element name="u" type="u"/><xs:element name="money" type="money"/></xs:schema>''')
+ <xs:element name="ilist" type="ilist"/><xs:element name="ilist2" type="ilist2"/><xs:element name="u" type="u"/><xs:element name="money" type="money"/>
+ <xs:element name="twoWords" type="twoWords"/><xs:element name="lead" type="lead"/></xs:schema>''')
 
 
 def isint(t): return re.fullmatch(r'[+-]?[0-9]+', t) is not None
@@ -75,10 +79,14 @@ REF = {
     'ilist': lambda t: all(REF['small'](x) for x in t.split(' ')) if t else True,
     'ilist2': lambda t: len(t.split(' ')) == 2 and all(REF['small'](x) for x in t.split(' ')) if t else False,
     'u': lambda t: REF['small'](t) or t in ('true', 'false', '1', '0') or REF['word'](t),
+    # restriction of a union by pattern: the pattern applies to the text as normalised by the member that validates it
+    # (xs:int collapses, xs:string preserves)
+    'twoWords': lambda t: (isint(t.strip(' \t\n\r')) and re.fullmatch(r'[0-9]+', re.sub(r'[ \t\n\r]+', ' ', t).strip(' ')) is not None and -2**31 <= int(t) < 2**31) or (not isint(t.strip(' \t\n\r')) and re.fullmatch(r'[a-z]+ [a-z]+', t) is not None),
+    'lead': lambda t: (isint(t.strip(' \t\n\r')) and re.fullmatch(r'[0-9]+', t.strip(' \t\n\r')) is not None and -2**31 <= int(t) < 2**31) or (not isint(t.strip(' \t\n\r')) and re.fullmatch(r'  [a-z]+', t) is not None),
     'money': lambda t: re.fullmatch(r'[+-]?([0-9]+(\.[0-9]*)?|\.[0-9]+)', t) is not None and sum(digits(t)) <= 4 and digits(t)[1] <= 2,
 }
 UNION_DECODE = lambda t: int(t) if REF['small'](t) else (t in ('true', '1')) if t in ('true', 'false', '1', '0') else t
-VALUES = ['0', '5', '9', '10', '99', '100', '101', '-1', '+7', '07', 'ab', 'a', 'abc', 'abcd', 'abcde', 'true', 'false', '1', '', '1 2', '1 2 3', '100 0', '101 1', 'x y',
+VALUES = ['ab cd', 'ab  cd', ' ab cd', 'ab cd ', '  ab', ' ab', '12', ' 12 ', 'ab', '0', '5', '9', '10', '99', '100', '101', '-1', '+7', '07', 'ab', 'a', 'abc', 'abcd', 'abcde', 'true', 'false', '1', '', '1 2', '1 2 3', '100 0', '101 1', 'x y',
           '12.34', '1.234', '123.4', '12345', '0.10', '00012.30', '.5', '1e1', 'a b']
 
 
